@@ -362,8 +362,10 @@ req0_recv_cb(void *arg)
 		return;
 	}
 
-	// We have our match, so we can remove this.
+	// We have our match, so we can remove this.  The request is
+	// answered: it no longer depends on the pipe it was sent on.
 	nni_list_node_remove(&ctx->send_node);
+	nni_list_node_remove(&ctx->pipe_node);
 	nni_id_remove(&s->requests, id);
 	ctx->request_id = 0;
 	if (ctx->req_msg != NULL) {
